@@ -106,11 +106,13 @@ pub struct GenCfg {
   pub exact_only_pct: u64,
   pub sim_fams_only: bool,
   pub replays: u8,
+  /// Many tasks over few resources, bursts of changes: large scheduled sets in bottom-up builds.
+  pub big: bool,
 }
 
 impl Default for GenCfg {
   fn default() -> Self {
-    GenCfg { class: Class::W, bottom_up: 0, td_between: false, all_roots_td: false, crash: false, check_errors: false, rw_errors: false, exact_only_pct: 40, sim_fams_only: true, replays: 0 }
+    GenCfg { class: Class::W, bottom_up: 0, td_between: false, all_roots_td: false, crash: false, check_errors: false, rw_errors: false, exact_only_pct: 40, sim_fams_only: true, replays: 0, big: false }
   }
 }
 
@@ -269,13 +271,12 @@ pub fn gen_keys(rng: &mut Rng, ntasks: usize, nres: usize, sim_only: bool) -> (V
 }
 
 pub fn gen_program_w(rng: &mut Rng, cfg: &GenCfg) -> Program {
-  let ntasks = rng.range(2, 8) as usize;
-  let nres = rng.range(2, 8) as usize;
+  let (ntasks, nres) = if cfg.big { (rng.range(5, 8) as usize, rng.range(2, 4) as usize) } else { (rng.range(2, 8) as usize, rng.range(2, 8) as usize) };
   let exact_only = rng.chance(cfg.exact_only_pct);
   let (keys, resources) = gen_keys(rng, ntasks, nres, cfg.sim_fams_only);
   let mut writer = BTreeMap::new();
   let mut wchk = BTreeMap::new();
-  let gen_pct = rng.range(20, 60);
+  let gen_pct = if cfg.big { rng.range(0, 35) } else { rng.range(20, 60) };
   for r in 0..nres {
     if rng.chance(gen_pct) {
       writer.insert(r, rng.below(ntasks as u64) as usize);
@@ -310,7 +311,7 @@ pub fn gen_history(rng: &mut Rng, prog: &Program, cfg: &GenCfg) -> (Vec<(usize, 
   let mut init = vec![];
   let init_pct = rng.range(40, 90);
   for r in 0..nres { if rng.chance(init_pct) { init.push((r, rng.below(NVALS as u64) as Val)); } }
-  let nsteps = rng.range(2, 10) as usize;
+  let nsteps = if cfg.big { rng.range(4, 12) as usize } else { rng.range(2, 10) as usize };
   let mut steps = vec![];
   let mut faults = BTreeMap::new();
   let root_pct = rng.range(20, 70);
@@ -329,11 +330,14 @@ pub fn gen_history(rng: &mut Rng, prog: &Program, cfg: &GenCfg) -> (Vec<(usize, 
   while steps.len() < nsteps {
     match rng.below(10) {
       0..=4 => {
-        let res = rng.below(nres as u64) as usize;
-        match rng.below(10) {
-          0 => steps.push(Step::Touch { res }),
-          1..=2 => steps.push(Step::Change { res, val: None }),
-          _ => steps.push(Step::Change { res, val: Some(rng.below(NVALS as u64) as Val) }),
+        let burst = if cfg.big { rng.range(1, 3) } else { 1 };
+        for _ in 0..burst {
+          let res = rng.below(nres as u64) as usize;
+          match rng.below(10) {
+            0 => steps.push(Step::Touch { res }),
+            1..=2 => steps.push(Step::Change { res, val: None }),
+            _ => steps.push(Step::Change { res, val: Some(rng.below(NVALS as u64) as Val) }),
+          }
         }
       }
       5..=8 => {
@@ -373,4 +377,75 @@ pub fn gen_history(rng: &mut Rng, prog: &Program, cfg: &GenCfg) -> (Vec<(usize, 
     if !f.is_none() { faults.insert(i, f); }
   }
   (init, steps, faults)
+}
+
+fn insert_op(rng: &mut Rng, ops: &mut Vec<Op>, op: Op) {
+  let guarded = if rng.chance(40) { let modulus = rng.range(2, 3) as Val; Op::If { m: rng.below(modulus as u64) as Val, modulus, then: vec![op], els: vec![] } } else { op };
+  let pos = rng.below(ops.len() as u64 + 1) as usize;
+  ops.insert(pos, guarded);
+}
+
+fn reads_of(ops: &[Op], out: &mut Vec<(usize, RK)>) {
+  for op in ops {
+    match op {
+      Op::Read { res, chk } => out.push((*res, *chk)),
+      Op::If { then, els, .. } => { reads_of(then, out); reads_of(els, out); }
+      _ => {}
+    }
+  }
+}
+
+/// Class X: a class-W program plus one injected op that may create a hidden dependency, an overlapping write or a
+/// cyclic require in some states.
+pub fn gen_program_x(rng: &mut Rng, cfg: &GenCfg, want: u64) -> Program {
+  let mut p = gen_program_w(rng, cfg);
+  p.class = Class::X;
+  let ntasks = p.tasks.len();
+  for _attempt in 0..8 {
+    match want {
+      0 => {
+        // hidden read: a task reads a generated resource without requiring its writer
+        let gens: Vec<(usize, Tid)> = p.writer.iter().map(|(r, w)| (*r, *w)).collect();
+        if gens.is_empty() { continue; }
+        let (r, w) = *rng.pick(&gens);
+        let t = rng.below(ntasks as u64) as usize;
+        if t == w { continue; }
+        let chk = pick_rk(rng, p.exact_only);
+        insert_op(rng, &mut p.tasks[t].ops, Op::Read { res: r, chk });
+        return p;
+      }
+      1 => {
+        // hidden write: a task writes a resource that another task reads without requiring the new writer
+        let mut cands: Vec<(usize, Tid, RK)> = vec![];
+        for (t, td) in p.tasks.iter().enumerate() { let mut v = vec![]; reads_of(&td.ops, &mut v); for (r, k) in v { if !p.writer.contains_key(&r) { cands.push((r, t, k)); } } }
+        if cands.is_empty() { continue; }
+        let (r, reader, _) = *rng.pick(&cands);
+        let u = rng.below(ntasks as u64) as usize;
+        if u == reader { continue; }
+        let op = Op::Write { res: r, chk: RK::Exact, k: rng.below(NVALS as u64 + 1) as Val, via: rng.chance(30) };
+        insert_op(rng, &mut p.tasks[u].ops, op);
+        return p;
+      }
+      2 => {
+        // overlapping write: a second task writes a generated resource
+        let gens: Vec<(usize, Tid)> = p.writer.iter().map(|(r, w)| (*r, *w)).collect();
+        if gens.is_empty() { continue; }
+        let (r, w) = *rng.pick(&gens);
+        let u = rng.below(ntasks as u64) as usize;
+        if u == w { continue; }
+        let op = Op::Write { res: r, chk: RK::Exact, k: rng.below(NVALS as u64 + 1) as Val, via: rng.chance(30) };
+        insert_op(rng, &mut p.tasks[u].ops, op);
+        return p;
+      }
+      _ => {
+        // back-require closing a cycle of length 1..n
+        let b = rng.below(ntasks as u64) as usize;
+        let a = rng.below(b as u64 + 1) as usize;
+        let chk = pick_ok(rng, p.exact_only);
+        insert_op(rng, &mut p.tasks[b].ops, Op::Require { task: a, chk });
+        return p;
+      }
+    }
+  }
+  p
 }
